@@ -15,7 +15,7 @@ type ActorHandle[T any] interface {
 // ActorDef[T] Actor model inspired by Erlang/Akka
 type ActorDef[T any] struct {
 	id       time.Time
-	isClosed bool
+	isClosed AtomBool
 	ch       chan T
 	effect   func(*ActorDef[T], T)
 
@@ -64,9 +64,13 @@ func ActorNewByOptionsGenerics[T any](effect func(*ActorDef[T], T), ioCh chan T,
 
 // Send Send a message to the Actor
 func (actorSelf *ActorDef[T]) Send(message T) {
-	if actorSelf.isClosed {
+	if actorSelf.isClosed.Get() {
 		return
 	}
+	// Close() might happen between the check above and the send: drop the message then
+	defer func() {
+		recover()
+	}()
 
 	actorSelf.ch <- message
 }
@@ -74,7 +78,7 @@ func (actorSelf *ActorDef[T]) Send(message T) {
 // Spawn Spawn a new Actor with parent(this actor)
 func (actorSelf *ActorDef[T]) Spawn(effect func(*ActorDef[T], T)) *ActorDef[T] {
 	newOne := actorSelf.New(effect)
-	if actorSelf.isClosed {
+	if actorSelf.isClosed.Get() {
 		return newOne
 	}
 
@@ -101,14 +105,14 @@ func (actorSelf *ActorDef[T]) GetID() time.Time {
 
 // Close Close the Actor
 func (actorSelf *ActorDef[T]) Close() {
-	actorSelf.isClosed = true
+	actorSelf.isClosed.Set(true)
 
 	close(actorSelf.ch)
 }
 
 // IsClosed Check is Closed
 func (actorSelf *ActorDef[T]) IsClosed() bool {
-	return actorSelf.isClosed
+	return actorSelf.isClosed.Get()
 }
 
 func (actorSelf *ActorDef[T]) run() {
@@ -205,6 +209,6 @@ func init() {
 	// Ask = *Ask.New(0, nil)
 	// Actor = *Actor.New(func(_ *ActorDef[interface{}], _ interface{}) {})
 	// Actor.Close()
-	Actor.isClosed = true
+	Actor.isClosed.Set(true)
 	defaultActor = &Actor
 }
